@@ -31,7 +31,12 @@ REQUIRED = ["no_loss", "admitted_by_commit", "only_admitted_delivered", "save_ev
             "rest_lists_every_spent_job", "undelivered_visible_at_rest_api", "listEvents_ok", "failedRows_sound",
             "cleanup_calls_nobody_and_records_what_it_removes", "cleanup_touches_only_named_failed_matching",
             "fact_notifier_options", "fact_shelf_name", "fact_save_check_order", "fact_registry", "fact_list_events", "retry_attempts_machine_source",
-            "np_calls_bounded", "np_gives_up_after_budget", "retry_attempts_machine", "retry_attempts_refines", "retry_delay_never_overflows"]
+            "np_calls_bounded", "np_gives_up_after_budget", "retry_attempts_machine", "retry_attempts_refines", "retry_delay_never_overflows",
+            # deepening round 2 (NutsProofs.Props.C14Recv): the real receivers' error classification and its composition with notifyNow
+            "vcr_outcome_trichotomy", "vcr_handleError_decision", "vcr_transient_is_retried", "vcr_fatal_iff", "vcr_never_incomplete",
+            "vcr_context_not_allowed_is_done", "vdr_fatal_iff_not_db", "private_wrap_fatal_iff_not_db", "private_no_error_never_fatal",
+            "private_present_is_done", "nats_never_fatal", "fatal_answer_ends_delivery_visibly", "plain_error_keeps_job",
+            "vdr_non_db_error_visible_after_one_call", "vdr_db_error_is_retried"]
 
 
 def sel(filters, tx, ty):
@@ -277,7 +282,7 @@ def run(ctx):
         t0 = time.time()
     facts = ctx.facts()
     lap("facts")
-    thms = ctx.build_and_audit(["NutsProofs.Props.C14", "NutsProofs.Props.C14Ops", "NutsProofs.Props.C14Api"])
+    thms = ctx.build_and_audit(["NutsProofs.Props.C14", "NutsProofs.Props.C14Ops", "NutsProofs.Props.C14Api", "NutsProofs.Props.C14Recv"])
     lap("lean-build+audit")
     for r in REQUIRED:
         if not any(t.endswith("Props." + r) for t in thms):
@@ -376,6 +381,7 @@ def run(ctx):
         start_oracle(ctx)
         lap("leg-network-start")
         classification_oracle(ctx)
+        receivers_oracle(ctx)
         lap("leg-vcr")
         options_oracle(ctx, binary, facts)
         lap("leg-options")
@@ -434,7 +440,7 @@ def run(ctx):
             sig.append((op["op"], op.get("s"), op.get("ref"), st))
         if stopped and delivered:
             distinct.add(hash((json.dumps(h.reset.get("beh"), sort_keys=True), tuple(sig))))
-    ctx.cov["evaluations"] = len(impl) + sum(ctx.cov.get(k, {}).get("ops", 0) for k in ("options_leg", "api_leg"))
+    ctx.cov["evaluations"] = len(impl) + sum(ctx.cov.get(k, {}).get("ops", 0) for k in ("options_leg", "api_leg", "receivers_leg"))
     ctx.cov["distinct_nontrivial"] = len(distinct)
     ctx.cov["traces_validated_against_impl"] = len(impl) - len(bad)
     ctx.cov["rule"] = ("histories over a pool of 10 real signed transactions (public/private, did/vc/revocation/other payload types, two roots, two "
@@ -715,6 +721,65 @@ def classification_oracle(ctx):
         ctx.violation("C14:receiver-misclassifies:vcr", f"real vcr ambassador.handleError in a real notifier: expected {[(k, want[k]) for k in wrong]}, observed {wrong}",
                       "receiver-classification-vcr.txt", f"scenario of harness/inpkg/vcr/zz_verif_c14_test.go: expected {want}\nobserved {got}\n")
     ctx.cov["classification_cases"] = len(got)
+
+
+def recv_class(done, err):
+    """notifyNow's reading of a receiver answer (errors.As EventFatal first, then finished)"""
+    if err is not None:
+        return "fatal" if "fatal" in err else ("failCtx" if err[-1] == "ctx" else "fail")
+    return "done" if done else "notDone"
+
+
+def vcr_expect(c):
+    """the property-side expectation for vcr handleError, from the error's Unwrap chain (outermost first): context
+    time-outs/cancellations are retried with the error unchanged, context-not-allowed completes, a failed remote-context
+    load (the FIRST JSON-LD error of the chain) is retried, everything else is returned under EventFatal"""
+    if "canceled" in c or "deadline" in c:
+        done, err = False, c
+    elif "ctx" in c:
+        done, err = True, None
+    elif next((x for x in c if x.startswith("ld:")), None) == "ld:remote":
+        done, err = False, c
+    else:
+        done, err = False, ["fatal"] + c
+    return "recv|done=%s|err=%s|class=%s" % (str(done).lower(), ">".join(err) if err else "-", recv_class(done, err))
+
+
+def receivers_oracle(ctx):
+    """GENERATED error chains through the REAL vcr ambassador.handleError inside a real persistent notifier: the returned
+    (finished, error chain) and how the notifier then recorded the job, against NutsModel.C14.Receivers (vcrHandle, classify)
+    and against the expectation recomputed here"""
+    pkg, files, name = HARNESSES[3]
+    vb = ctx.go_test_binary(pkg, files, name)
+    if vb is None:
+        ctx.oblige("receivers-harness-builds", False, ctx.harness_error[-1200:])
+        return
+    d = os.path.join(ctx.scratch, "outvr")
+    rc, log, out = ctx.run_harness(vb, "TestVerifC14Receivers", {}, outdir=d, timeout=600)
+    if rc != 0:
+        ctx.oblige("receivers-harness-runs", False, "\n".join(l for l in log.split("\n") if "level=audit" not in l)[-1200:])
+        return
+    ops_p, impl_p, model_p = (os.path.join(out, x) for x in ("ops.jsonl", "impl.out", "model.out"))
+    okm, err = ctx.model("C14", ops_p, model_p)
+    impl, model, bad = ctx.compare(impl_p, model_p)
+    ops = [json.loads(x) for x in ctx.read_lines(ops_p) if x.strip()]
+    wrong = [(i, vcr_expect(op["cb"]), line) for i, (op, line) in enumerate(zip(ops, impl)) if line != vcr_expect(op["cb"])]
+    classes = {}
+    for line in impl:
+        k = line.rsplit("|class=", 1)[-1]
+        classes[k] = classes.get(k, 0) + 1
+    ctx.oblige("receivers-harness-runs", len(ops) > 0 and len(ops) == len(impl) and all(classes.get(k, 0) > 0 for k in ("done", "fail", "fatal")),
+               f"{len(ops)} error chains, recorded as {classes}")
+    ctx.oblige("oracle:vcr:handleError-on-generated-error-chains(transient=same-error-retried,context-not-allowed=done,remote-context=retried,other=EventFatal+failed)",
+               not wrong, "; ".join(f"chain {ops[i]['cb']}: want {w} got {g}" for i, w, g in wrong[:3]))
+    if wrong:
+        i, w, g = wrong[0]
+        ctx.violation("C14:receiver-misclassifies:vcr", f"real vcr ambassador.handleError in a real notifier, error chain {'>'.join(ops[i]['cb'])}: expected {w}, observed {g}",
+                      "receiver-classification-vcr.jsonl", json.dumps(ops[i]) + "\n")
+    ctx.oblige("correspondence:receivers-model=impl", okm and not bad, f"{len(bad)} of {len(impl)} lines differ" if bad else f"{len(impl)} lines equal")
+    if bad and not wrong:
+        ctx.unproved(["correspondence C14 receivers (Receivers model != impl)"], f"op {json.dumps(ops[bad[0]])[:300]}\nimpl {impl[bad[0]][:300]}\nmodel {model[bad[0]][:300]}")
+    ctx.cov["receivers_leg"] = {"ops": len(ops), "distinct": len({tuple(o["cb"]) for o in ops}), "recorded_as": classes}
 
 
 def options_oracle(ctx, binary, facts):
